@@ -18,6 +18,17 @@ def SmallBy (Lfin : List (PageId × Store Node)) : Prop :=
   ∀ (w1 : Walker Node) (a1 : TW Node), Sim H ps w1 a1 → w1.reconstruction = true → dip a1.pos = 1 →
     a1.up.log <+: Lfin → SmallTop H w1
 
+/-- no page is left twice: when the log after the move still is a prefix of a log with distinct ids, the page left is new -/
+theorem new_of_prefix (a : TW Node) (Lfin : List (PageId × Store Node)) (hnd : (Lfin.map (·.1)).Nodup)
+    (hpre : a.up.log <+: Lfin) : dip a.pos = 1 → specPage a.pos ∉ a.log.map (·.1) := by
+  intro h1 hmem
+  rw [tw_up_log, if_pos h1] at hpre
+  obtain ⟨t, ht⟩ := hpre
+  rw [← ht] at hnd
+  simp only [List.map_append, List.map_cons, List.map_nil, List.append_assoc] at hnd
+  have := (List.nodup_append.mp hnd).2.2 _ hmem (specPage a.pos) (by simp)
+  exact this rfl
+
 /-- jumping to the sibling position (same page) -/
 theorem sim_sibling {w : Walker Node} {a : TW Node} (h : Sim H ps w a) (hd : 6 * k0 w.parentPage < a.pos.length) :
     ∃ p', w.position.sibling = some p' ∧
@@ -31,7 +42,7 @@ theorem sim_sibling {w : Walker Node} {a : TW Node} (h : Sim H ps w a) (hd : 6 *
     rw [hp'path, h.pos]
     rw [h.pos] at hpath
     conv => rhs; rw [hpath, sibPath_snoc]
-  refine ⟨hp'wf, hsp, h.root, ?_, ?_, h.chain, h.pages, h.counters, h.recon.cast H rfl rfl rfl rfl rfl, h.cpr, h.outs, h.nofix, h.diffs⟩
+  refine ⟨hp'wf, hsp, h.root, ?_, ?_, h.chain, h.pages, h.counters, h.recon.cast H rfl rfl rfl rfl rfl, h.cpr, h.outs, h.nofix, h.diffs, h.acct, h.named⟩
   · show w.stack = [] ↔ (sibPath a.pos).length ≤ _
     rw [sibPath_length]; exact h.stackE
   · intro sp rest e
@@ -74,7 +85,7 @@ theorem sim_compactStep {w : Walker Node} {a : TW Node} (h : Sim H ps w a) (hd :
 theorem sim_other_fields {w : Walker Node} {a : TW Node} (h : Sim H ps w a) (ss : List (Node × Nat)) (pn : Option Node)
     (lp : Option Pos) :
     Sim H ps ({ w with siblingStack := ss, prevNode := pn, lastPosition := lp } : Walker Node) a :=
-  ⟨h.wf, h.pos, h.root, h.stackE, h.stackT, h.chain, h.pages, h.counters, h.recon.cast H rfl rfl rfl rfl rfl, h.cpr, h.outs, h.nofix, h.diffs⟩
+  ⟨h.wf, h.pos, h.root, h.stackE, h.stackT, h.chain, h.pages, h.counters, h.recon.cast H rfl rfl rfl rfl rfl, h.cpr, h.outs, h.nofix, h.diffs, h.acct, h.named⟩
 
 theorem sim_stackEmpty {w : Walker Node} {a : TW Node} (h : Sim H ps w a) :
     w.stack.isEmpty = a.stackEmpty (cfgOf H ps w.parentPage) := by
@@ -92,18 +103,17 @@ theorem sim_stackEmpty {w : Walker Node} {a : TW Node} (h : Sim H ps w a) :
     simp [this]
 
 /-- the loop of `compact_up` -/
-theorem sim_compactLoop (Lfin : List (PageId × Store Node)) :
+theorem sim_compactLoop (Lfin : List (PageId × Store Node)) (hnd : (Lfin.map (·.1)).Nodup) :
     ∀ (n i layers : Nat) (w : Walker Node) (a : TW Node), Sim H ps w a →
     (n = 0 ∨ 6 * k0 w.parentPage < a.pos.length) →
-    (w.reconstruction = true → SmallBy H ps Lfin ∧ (TW.compactLoop H (cfgOf H ps w.parentPage) n a).log <+: Lfin) →
-    (∃ w', Walker.compactLoop H n i layers w = .ok w' ∧
-      Sim H ps w' (TW.compactLoop H (cfgOf H ps w.parentPage) n a) ∧ Same w w') ∨
-    (w.reconstruction = false ∧ Walker.compactLoop H n i layers w = .panic GUARD) := by
+    ((w.reconstruction = true → SmallBy H ps Lfin) ∧ (TW.compactLoop H (cfgOf H ps w.parentPage) n a).log <+: Lfin) →
+    ∃ w', Walker.compactLoop H n i layers w = .ok w' ∧
+      Sim H ps w' (TW.compactLoop H (cfgOf H ps w.parentPage) n a) ∧ Same w w' := by
   intro n
   induction n with
   | zero =>
     intro i layers w a h _ _
-    exact Or.inl ⟨w, rfl, h, Same.rfl' _⟩
+    exact ⟨w, rfl, h, Same.rfl' _⟩
   | succ n ih =>
     intro i layers w a h hd hfin
     have hd : 6 * k0 w.parentPage < a.pos.length := by
@@ -113,20 +123,12 @@ theorem sim_compactLoop (Lfin : List (PageId × Store Node)) :
     obtain ⟨w1, hw1, hs1, hsame1, hcpr1, hroot1⟩ := sim_compactStep H ps h hd
     have hd1 : 6 * k0 w1.parentPage < (a.compactStep H).2.pos.length := by
       rw [hsame1.1, tw_compactStep_pos_length]; exact hd
-    have hup2 := sim_up H ps hs1 hd1 (by
+    have hpre1 : ((a.compactStep H).2.up).log <+: Lfin :=
+      List.IsPrefix.trans (tw_compactLoop_round_prefix H (cfgOf H ps w.parentPage) n a) hfin.2
+    obtain ⟨w2, hw2, hs2, hsame2, hcpr2, hroot2⟩ := sim_up H ps hs1 hd1 (by
       intro hr hdip
       have hr0 : w.reconstruction = true := by rw [← hsame1.2.2.2.2]; exact hr
-      obtain ⟨hsb, hpre⟩ := hfin hr0
-      exact hsb w1 _ hs1 hr hdip
-        (List.IsPrefix.trans (tw_compactLoop_round_prefix H (cfgOf H ps w.parentPage) n a) hpre))
-    rcases hup2 with ⟨w2, hw2, hs2, hsame2, hcpr2, hroot2⟩ | ⟨hnr, hp⟩
-    case inr =>
-      right
-      refine ⟨by rw [← hsame1.2.2.2.2]; exact hnr, ?_⟩
-      simp only [Walker.compactLoop]
-      rw [hw1]
-      simp only
-      rw [hp]
+      exact hfin.1 hr0 w1 _ hs1 hr hdip hpre1) (new_of_prefix _ Lfin hnd hpre1)
     have hpar2 : w2.parentPage = w.parentPage := hsame2.1.trans hsame1.1
     rw [tw_compactLoop_succ]
     simp only [Walker.compactLoop]
@@ -157,8 +159,8 @@ theorem sim_compactLoop (Lfin : List (PageId × Store Node)) :
           rw [hpp] at hposle
           simp [k0] at hposle
           exact hposle
-        refine Or.inl ⟨_, rfl, ?_, hsameAll _ rfl rfl rfl rfl rfl⟩
-        refine ⟨hs2.wf, hs2.pos, ?_, hs2.stackE, hs2.stackT, hs2.chain, ?_, hs2.counters, hs2.recon.cast H rfl rfl rfl rfl rfl, hs2.cpr, hs2.outs, hs2.nofix, hs2.diffs⟩
+        refine ⟨_, rfl, ?_, hsameAll _ rfl rfl rfl rfl rfl⟩
+        refine ⟨hs2.wf, hs2.pos, ?_, hs2.stackE, hs2.stackT, hs2.chain, ?_, hs2.counters, hs2.recon.cast H rfl rfl rfl rfl rfl, hs2.cpr, hs2.outs, hs2.nofix, hs2.diffs, hs2.acct, hs2.named.write_root hnil _⟩
         · simp [TW.setNode, hnil, upd_same]
         · intro sp hsp
           have : w2.stack = [] := List.isEmpty_iff.mp hempty
@@ -170,8 +172,8 @@ theorem sim_compactLoop (Lfin : List (PageId × Store Node)) :
           | some x => rfl
         have hnp : (cfgOf H ps w.parentPage).hasParent = true := by simp [cfgOf, hpp']
         rw [if_pos hnp, if_neg hpn]
-        refine Or.inl ⟨_, rfl, ?_, hsameAll _ rfl rfl rfl rfl rfl⟩
-        refine ⟨hs2.wf, hs2.pos, hs2.root, hs2.stackE, hs2.stackT, hs2.chain, hs2.pages, hs2.counters, hs2.recon.cast H rfl rfl rfl rfl rfl, ?_, hs2.outs, hs2.nofix, hs2.diffs⟩
+        refine ⟨_, rfl, ?_, hsameAll _ rfl rfl rfl rfl rfl⟩
+        refine ⟨hs2.wf, hs2.pos, hs2.root, hs2.stackE, hs2.stackT, hs2.chain, hs2.pages, hs2.counters, hs2.recon.cast H rfl rfl rfl rfl rfl, ?_, hs2.outs, hs2.nofix, hs2.diffs, hs2.acct, hs2.named⟩
         simp only [List.map_append, List.map_cons, List.map_nil]
         rw [hs2.cpr, hs2.pos]
     · have hse' : ¬ ((a.compactStep H).2.up).stackEmpty (cfgOf H ps w.parentPage) = true := by
@@ -198,38 +200,35 @@ theorem sim_compactLoop (Lfin : List (PageId × Store Node)) :
       obtain ⟨w4, hw4, hs4, hsame4, _, _, _⟩ := sim_setNode H ps hs3 hd3 (a.compactStep H).1
       simp only [hw4]
       have hpar4 : w4.parentPage = w.parentPage := hsame4.1.trans (hsame3.1.trans hpar2)
-      have hrec5 := ih (i + 1) layers w4 _ hs4 (Or.inr (by
+      obtain ⟨w5, hw5, hs5, hsame5⟩ := ih (i + 1) layers w4 _ hs4 (Or.inr (by
         show 6 * k0 w4.parentPage < ((a.compactStep H).2.up).pos.length
         rw [hsame4.1]; exact hd3)) (by
-          intro hr
-          have hr0 : w.reconstruction = true := by
-            rw [← hsame1.2.2.2.2, ← hsame2.2.2.2.2, ← hsame3.2.2.2.2, ← hsame4.2.2.2.2]; exact hr
-          obtain ⟨hsb, hpre⟩ := hfin hr0
-          refine ⟨hsb, ?_⟩
-          rw [hpar4]
-          rw [tw_compactLoop_succ, if_neg hse'] at hpre
-          exact hpre)
-      rcases hrec5 with ⟨w5, hw5, hs5, hsame5⟩ | ⟨hnr5, hp5⟩
-      · rw [hpar4] at hs5
-        exact Or.inl ⟨w5, hw5, hs5, Same.trans' (Same.trans' (Same.trans' (Same.trans' hsame1 hsame2) hsame3) hsame4) hsame5⟩
-      · refine Or.inr ⟨?_, hp5⟩
-        rw [← hsame1.2.2.2.2, ← hsame2.2.2.2.2, ← hsame3.2.2.2.2, ← hsame4.2.2.2.2]; exact hnr5
+          refine ⟨?_, ?_⟩
+          · intro hr
+            have hr0 : w.reconstruction = true := by
+              rw [← hsame1.2.2.2.2, ← hsame2.2.2.2.2, ← hsame3.2.2.2.2, ← hsame4.2.2.2.2]; exact hr
+            exact hfin.1 hr0
+          · have hpre := hfin.2
+            rw [hpar4]
+            rw [tw_compactLoop_succ, if_neg hse'] at hpre
+            exact hpre)
+      rw [hpar4] at hs5
+      exact ⟨w5, hw5, hs5, Same.trans' (Same.trans' (Same.trans' (Same.trans' hsame1 hsame2) hsame3) hsame4) hsame5⟩
 
 /-- `compact_up` -/
 theorem sim_compactUp {w : Walker Node} {a : TW Node} (h : Sim H ps w a) (target : Option Pos)
     (hok : ∀ t, target = some t → 6 * k0 w.parentPage < a.pos.length → sharedBits a.pos t.path + 1 ≤ a.pos.length)
-    (Lfin : List (PageId × Store Node))
-    (hfin : w.reconstruction = true → SmallBy H ps Lfin ∧
+    (Lfin : List (PageId × Store Node)) (hnd : (Lfin.map (·.1)).Nodup)
+    (hfin : (w.reconstruction = true → SmallBy H ps Lfin) ∧
       (a.compactUp H (cfgOf H ps w.parentPage) (target.map (·.path))).log <+: Lfin) :
-    (∃ w', w.compactUp H target = .ok w' ∧
-      Sim H ps w' (a.compactUp H (cfgOf H ps w.parentPage) (target.map (·.path))) ∧ Same w w') ∨
-    (w.reconstruction = false ∧ w.compactUp H target = .panic GUARD) := by
+    ∃ w', w.compactUp H target = .ok w' ∧
+      Sim H ps w' (a.compactUp H (cfgOf H ps w.parentPage) (target.map (·.path))) ∧ Same w w' := by
   unfold Walker.compactUp TW.compactUp
   have hse := sim_stackEmpty H ps h
   by_cases hempty : w.stack.isEmpty = true
   · have hse' : a.stackEmpty (cfgOf H ps w.parentPage) = true := by rw [← hse]; exact hempty
     rw [if_pos hempty, if_pos hse']
-    exact Or.inl ⟨w, rfl, h, Same.rfl' _⟩
+    exact ⟨w, rfl, h, Same.rfl' _⟩
   · have hse' : ¬ a.stackEmpty (cfgOf H ps w.parentPage) = true := by rw [← hse]; exact hempty
     rw [if_neg hempty, if_neg hse']
     have hd : 6 * k0 w.parentPage < a.pos.length := by
@@ -242,17 +241,14 @@ theorem sim_compactUp {w : Walker Node} {a : TW Node} (h : Sim H ps w a) (target
     | none =>
       simp only [Option.map_none]
       rw [hdep]
-      rcases sim_compactLoop H ps Lfin a.pos.length 0 a.pos.length
+      exact sim_compactLoop H ps Lfin hnd a.pos.length 0 a.pos.length
         ({ w with siblingStack := [] } : Walker Node) a (sim_other_fields H ps h [] w.prevNode w.lastPosition)
         (Or.inr hd) (by
-          intro hr
-          obtain ⟨hsb, hpre⟩ := hfin hr
-          refine ⟨hsb, ?_⟩
+          refine ⟨hfin.1, ?_⟩
+          have hpre := hfin.2
           unfold TW.compactUp at hpre
           rw [if_neg hse'] at hpre
-          exact hpre) with ⟨w', hw', hs', hsame⟩ | ⟨hnr, hp⟩
-      · exact Or.inl ⟨w', hw', hs', hsame⟩
-      · exact Or.inr ⟨hnr, hp⟩
+          exact hpre)
     | some t =>
       simp only [Option.map_some]
       have hsd : w.position.sharedDepth t = sharedBits a.pos t.path := by
@@ -265,23 +261,20 @@ theorem sim_compactUp {w : Walker Node} {a : TW Node} (h : Sim H ps w a) (target
         cases hpn : w.prevNode with
         | none =>
           simp only
-          exact Or.inl ⟨_, rfl, sim_other_fields H ps h _ none w.lastPosition, Same.rfl' _⟩
+          exact ⟨_, rfl, sim_other_fields H ps h _ none w.lastPosition, Same.rfl' _⟩
         | some pn =>
           simp only
-          exact Or.inl ⟨_, rfl, sim_other_fields H ps h _ none w.lastPosition, Same.rfl' _⟩
+          exact ⟨_, rfl, sim_other_fields H ps h _ none w.lastPosition, Same.rfl' _⟩
       · rw [if_neg hl0]
-        rcases sim_compactLoop H ps Lfin (a.pos.length - (sharedBits a.pos t.path + 1)) 0
+        exact sim_compactLoop H ps Lfin hnd (a.pos.length - (sharedBits a.pos t.path + 1)) 0
           (a.pos.length - (sharedBits a.pos t.path + 1))
           ({ w with siblingStack := w.siblingStack.takeWhile (fun s => decide (s.2 ≤ sharedBits a.pos t.path)),
                     prevNode := none } : Walker Node) a
           (sim_other_fields H ps h _ none w.lastPosition) (Or.inr hd) (by
-            intro hr
-            obtain ⟨hsb, hpre⟩ := hfin hr
-            refine ⟨hsb, ?_⟩
+            refine ⟨hfin.1, ?_⟩
+            have hpre := hfin.2
             unfold TW.compactUp at hpre
             rw [if_neg hse'] at hpre
-            exact hpre) with ⟨w', hw', hs', hsame⟩ | ⟨hnr, hp⟩
-        · exact Or.inl ⟨w', hw', hs', hsame⟩
-        · exact Or.inr ⟨hnr, hp⟩
+            exact hpre)
 
 end Nomt.Walker.G
